@@ -112,6 +112,27 @@ def run(F, R):
     adds = [s for bb, s in df.all_stmts() if s[1][0] == "bin" and s[1][1] in ("Add", "AddWithOverflow") and const_eval(df, s[1][3]) == 1]
     R.check(bool(adds) and bool(df.calls_to(r"::max$")), "R10.3", "DepthCalculate::enter_field:+1-max", df.where(), "current+1, max", "depth is not max over current+1")
 
+    R.rule("R10.6", "schema lookups in the limit calculators are keyed by the field *name*: no metadata lookup (field_by_name / fields.get) in "
+                    "ComplexityCalculate / DepthCalculate takes its key from response_key() or the alias (an alias must not change a field's cost)")
+    from common import lookups_keyed_by_response_key
+    vis = [b for b in F.find(r"async_graphql::validation::visitors::(complexity|depth)::") if "::tests::" not in b.defp]
+    badl = lookups_keyed_by_response_key(F, vis)
+    R.floor("R10.6", "calculator bodies", len(vis), 8)
+    R.check(not badl, "R10.6", "calculators:lookup-by-field-name", badl[0].where() if badl else "-", "lookups use the field name",
+            "a schema-field lookup is keyed by the response key / alias: an aliased field loses its declared complexity rule")
+
+    R.rule("R10.7", "the recursion-depth walk measures every spread: a visited-set guard in check_recursive_depth may skip a fragment only if its key "
+                    "includes the depth at which it was measured (a depth-insensitive memo lets a deeper second spread go unmeasured)")
+    memo = [c for c in rd.calls() if c.callee and re.search(r"hash::(set|map)::\{impl#\d+\}::(insert|contains|contains_key|get|entry)$", c.callee)
+            and not any(k == "field" and ".fragments" in x for k, x in trace(rd, c.args[0])[0])]
+    ok7 = True
+    for c in memo:
+        ty = c.argtys[0] if c.argtys else ""
+        if "usize" not in ty:
+            ok7 = False
+    R.check(ok7, "R10.7", "check_recursive_depth:depth-insensitive-memo", memo[0].where() if memo else rd.where(), "no depth-insensitive visited set (%d memo calls)" % len(memo),
+            "check_recursive_depth skips fragments already seen regardless of the depth of the new spread: `...F` shallow then `...F` deep is measured once, at the shallow depth")
+
     R.rule("R10.4", "option plumbing: at every call site of prepare_request the arguments bound to recursive_depth / max_directives / complexity / depth "
                     "derive from the schema field of the same name (complexity and depth are both Option<usize>: a swap compiles)")
     callers = F.callers_of(SCH + r"::prepare_request$")
